@@ -34,6 +34,8 @@ def gen_case(seed, tier):
     settings = seqcache.gen_settings(rng, 'c04')
     n_ops = rng.choice((20, 40, 80)) if tier == 'quick' else rng.choice((30, 80, 200))
     prog = seqcache.gen_prog(rng, n_ops, 'expiry', settings['disk_min_file_size'])
+    if settings['cull_limit'] == 0:
+        prog = seqcache.add_blocks(rng, prog)      # transact() blocks in which time passes (no lazy culling in these runs)
     if rng.random() < 0.3:
         # many items sharing one expiry instant (more than one 100-row page), the clock moved past it, then a bulk removal
         n = rng.choice((101, 130, 205, 250))
